@@ -191,8 +191,10 @@ def rule_reciprocal(prog: Program, modules: Optional[Set[str]] = None) -> List[I
                         if isinstance(t, ast.Attribute):
                             recip_attrs.add(t.attr)
         for fi in fns:
-            recip_names = {t.id for n in walk_own(fi.node) if isinstance(n, ast.Assign) and is_recip(n.value) for t in n.targets if isinstance(t, ast.Name)}
-            if not recip_names and not recip_attrs:
+            # only reciprocals *stored on an object* and used elsewhere in place of the division (a cached 1/size); a local
+            # `s_ = 1.0 / s` of an inverse map computed on the spot is the author's explicit arithmetic and is left alone
+            recip_names: Set[str] = set()
+            if not recip_attrs:
                 continue
             for n in walk_own(fi.node):
                 if not (isinstance(n, ast.Call) and call_name(n) in ("floor", "ceil", "int", "trunc") and n.args):
